@@ -636,6 +636,28 @@ class Differ:
                 if ele == key:
                     rhs_ele = ele
                     break
+            if (isinstance(lhs_ele, (bool, ScalarBoolean))
+                    != isinstance(rhs_ele, (bool, ScalarBoolean))):
+                # Python takes 1 and true for one member; they are two:  one
+                # was deleted, the other added.
+                self._diffs.append(
+                    DiffEntry(
+                        DiffActions.DELETE,
+                        path + YAMLPath.escape_path_section(
+                            lhs_ele, path.separator),
+                        lhs_ele, None,
+                        lhs_parent=lhs, lhs_iteration=lhs_key_indicies[key],
+                        rhs_parent=rhs))
+                self._diffs.append(
+                    DiffEntry(
+                        DiffActions.ADD,
+                        path + YAMLPath.escape_path_section(
+                            rhs_ele, path.separator),
+                        None, rhs_ele,
+                        lhs_parent=lhs,
+                        rhs_parent=rhs, rhs_iteration=rhs_key_indicies[key]))
+                continue
+
             self._diff_between(
                 next_path, lhs_ele, rhs_ele,
                 lhs_parent=lhs, lhs_iteration=lhs_key_indicies[key],
